@@ -52,3 +52,43 @@ def decOp (args : List String) : String :=
   | _ => "bad-op"
 
 end Driver
+
+namespace Driver
+open Ps3 Ps3.Viso
+
+/-- os.File-like semantics of Read (looped until n bytes or the end) / ReadAt / Seek on a view -/
+def fileOpsRun (rd : Nat → Nat → Bytes) (size : Nat) : List VOp → Nat → List String → List String
+  | [], _, acc => acc.reverse
+  | op :: rest, cur, acc =>
+    if op.kind == 'A' || op.kind == 'R' then
+      let off := if op.kind == 'A' then op.off.toNat else cur
+      let d := rd off op.n
+      let cls := if d.length < op.n then "eof" else "ok"
+      fileOpsRun rd size rest (if op.kind == 'R' then cur + d.length else cur) (s!"{d.length}/{cls}/{digest d}" :: acc)
+    else
+      let t : Int := if op.whence == 0 then op.off else if op.whence == 1 then op.off + cur else (size : Int) + op.off
+      if t < 0 then fileOpsRun rd size rest cur ("0/err" :: acc)
+      else fileOpsRun rd size rest t.toNat (s!"{t}/ok" :: acc)
+
+/-- `fileops <short> <tree> <hexpath> <ops>`: access patterns on what FS.Open returns for a file -/
+def fileopsOp (args : List String) : String :=
+  match args with
+  | [_, tree, hpath, ops] =>
+    match fromHex hpath with
+    | none => "bad-op"
+    | some pb =>
+      let w := parseTree tree
+      let p := pathOfBytes pb
+      match FSWrap.wrap ⟨0, 0⟩ [] w p with
+      | some none => "openerr"
+      | some (some v) => "ops=" ++ String.intercalate "," (fileOpsRun v.read v.size (parseOps ops) 0 [])
+      | none =>
+        match w.stat p with
+        | some (_, .file i) =>
+          match w.inode? i with
+          | some f => "ops=" ++ String.intercalate "," (fileOpsRun (FSWrap.fileRd f) f.content.size (parseOps ops) 0 [])
+          | none => "openerr"
+        | _ => "openerr"
+  | _ => "bad-op"
+
+end Driver
